@@ -174,7 +174,8 @@ PROPS = {
         rule="items from the full RFC 8949 grammar (all major types, nested containers, tags, floats, simple values) emitted by the reference encoder under a random rewrite plan "
              "(wider heads, indefinite containers, chunked strings), placed so that the first byte lies at every offset -12..12 around the first two window multiples (exhaustive sweep "
              "for 14 shapes) and at random offsets, followed by a sentinel. Oracle: typed read returns the generator's value; skip_item()/typed read is followed by read_unsigned()==sentinel "
-             "and then end of input. Non-trivial: non-preferred/indefinite/nested/tagged/float item or item straddling a window boundary.",
+             "and then end of input. Nesting chains of depth 1000..150000 (thorough 400000; arrays, maps, tags, definite and indefinite, mixed) written directly as bytes must be skipped as one item. "
+             "Non-trivial: non-preferred/indefinite/nested/tagged/float item or item straddling a window boundary.",
         level_text="generated well-formed items vs ground truth, exhaustive offset sweep around the window boundary",
         level_note="ground truth comes from the generator; encodings are re-checked by the independent strict parser before use",
         technique="property-based testing: grammar-based generation with ground truth + exhaustive boundary sweep",
@@ -182,12 +183,13 @@ PROPS = {
         jobs=[
             dict(harness="codec", prop="c07_sweep", kind="enum"),
             dict(harness="codec", prop="c07_item", cases=(240000, 4000000), size=(30, 80)),
+            dict(harness="codec", prop="c07_deep", cases=(480, 16000), size=(30, 80)),
         ],
     ),
     "C08": dict(
         rule="valid file from the exporter (generated content, several parameter sets, all item kinds) re-emitted under a generated rewrite plan at a random subset of nodes: "
              "definite<->indefinite containers, chunked strings (text at UTF-8 boundaries), widened heads, permuted map members, unknown integer keys (|key|>=64) with arbitrary "
-             "well-formed values (tags, floats, nesting to depth 30). Oracle (metamorphic): canonical dump of CdnsReader output identical for both files; the independent reader must "
+             "well-formed values (tags, floats, nesting to depth 30; in one case of eight additionally an unknown member nested 1000..120000 deep (thorough 300000) spliced into the preamble or first block map). Oracle (metamorphic): canonical dump of CdnsReader output identical for both files; the independent reader must "
              "also interpret both identically (guards the rewriter). Non-trivial: >=1 rewrite applied and >=1 block.",
         level_text="metamorphic relation over generated files and generated semantics-preserving rewrites",
         level_note="only RFC-equivalent rewrites: array order kept, no duplicate keys, no tags around known members",
@@ -318,6 +320,7 @@ PROPS = {
     ),
 
     "C03": dict(
+        case_timeout=120,
         rule="(1) valid file from the exporter -> generated plan of 1..4 structure-aware edits on the CBOR tree (declared length/count -> boundary values up to 2^64-1, integers -> boundaries, "
              "index members just past their table, major type swapped, additional info 28..31, subtree replaced by a nesting chain of depth up to 2000 (thorough 200000; decoder streams up to 10^6), subtree "
              "duplicated/deleted/moved, unknown members, malformed domain names / addresses of length 0..20, ticks-per-second / earliest-time / offsets -> 0, 2^63, 2^64-1, huge declared string length / array count "
